@@ -3,10 +3,17 @@
 import json, os, sys
 HERE = os.path.dirname(os.path.abspath(__file__))
 sys.path.insert(0, HERE)
-from manifest_table import CLAIMED, NOT_APPLICABLE
+from manifest_table import CLAIMED, NOT_APPLICABLE, ADDED
+sys.setrecursionlimit(20000)
+import importlib
+from framelint import core
 
 checks = []
 for pid, (text, note, technique, ref) in sorted(CLAIMED.items()):
+    importlib.import_module(f"rules.{pid}")
+    rule_ids = ", ".join(rd.rid for rd in core.RULES.get(pid, []))
+    text = text + (" " + ADDED[pid] if pid in ADDED else "") + f" Rules ({len(core.RULES.get(pid, []))}): {rule_ids}."
+    ref = "DESIGN.md section 7/" + pid
     checks.append({
         "property_id": pid,
         "quick_cmd": f"/venv/bin/python /verif/check {pid} --tier quick",
@@ -35,7 +42,8 @@ manifest = {
         "kind_free_text": "repository-specific static analysis on stdlib ast: program model + call graph, canonical forms with "
                           "involutions and polynomial normal form (MIRROR/CLOSED/LAW), statement CFG with must-pass and "
                           "dominating-guard facts, conditional constant propagation / path tabulation, effect and who-writes "
-                          "analysis, schema extraction; in-memory mutant/refactor self-validation in the thorough tier",
+                          "analysis, schema extraction, regex-literal reading; the thorough tier adds verdict identity under two "
+                          "inlining policies and the in-memory self-validation (mutants, behaviour-preserving variants, stored seeded changes)",
     }],
     "checks": checks,
     "notes": "All checks are static analysis of /repo's current working tree (nothing under /repo is imported or executed). "
